@@ -245,10 +245,9 @@ def run(tier, seed):
              'leading zeros and a non-zero tail) x data lengths 0..100; ProcessRotateLeft amounts -64..64 (thorough; quick: -17..17 and selected) x '
              'groups 1..8 x data of 0..3 groups and non-multiples; ByteSwapped/BitsSwapped over Bytes(n)/BytesInteger(n), n = 1..16, and over variable-size members followed by other members; zlib/gzip/'
              'bzip2/lzma round trips. Oracle: independent Python definitions (cyclic XOR, big-integer rotation per group, slicing). distinct = (shape, outcome)',
-        fragment='xor involution / shortcuts, byte and bit order involutions, rotl8 inverse for every amount are proved; the multi-byte rotation '
-                 'branches are pinned by the exhaustive amount x group sweep against the big-integer definition',
-        partial=['rotate_inverse for group > 1 (byte-index and bit-pair branches) is not a theorem: decided by oracle + correspondence',
-                 'Compressed: the codecs live outside the model (oracle only)'],
+        fragment='xor involution / shortcuts, byte and bit order involutions; rotation matches its bit-level definition for every amount and group '
+                 'size (rot_group_spec), hence inverts (rotate_left_inverse, processrotl_parse_undoes_build), props/C15.v',
+        partial=['Compressed: the codecs live outside the model (oracle only)'],
         assumptions=['stdlib zlib/gzip/bz2/lzma decompress(compress(d)) = d'])
 
 
